@@ -467,3 +467,39 @@ package flags
 //@   ensures[C04] !compl ==> ncalls(Parser.printError) == pe0 + ite(err != nil && p.internalError == nil, 1, 0)
 //@   ensures[C04] !compl && err != nil && p.internalError == nil ==> callarg(Parser.printError, pe0, 1) == err
 //@   ensures[C19] p.internalError != nil ==> err == p.internalError && rest == nil
+
+// ===================================================================
+// command.go / parser.go: visible commands and the unknown-command diagnosis
+// ===================================================================
+
+//@ func (c *Command) visibleCommands() (r []*Command)
+//@   props C08 C16 C20 C04
+//@   requires c != nil
+//@   loop 1 invariant len(ret) <= idx_1 && forall(i, 0, len(ret), ret[i] != nil && !ret[i].Hidden)
+//@   loop 1 invariant forall(i, 0, len(ret), exists(j, 0, idx_1, ret[i] == c.commands[j]))
+//@   loop 1 invariant forall(j, 0, idx_1, !c.commands[j].Hidden ==> exists(i, 0, len(ret), ret[i] == c.commands[j]))
+//@   ensures[C16,C20] forall(i, 0, len(r), r[i] != nil && !r[i].Hidden)
+//@   ensures[C16,C20] forall(i, 0, len(r), exists(j, 0, len(c.commands), r[i] == c.commands[j]))
+//@   ensures[C16,C20] forall(j, 0, len(c.commands), !c.commands[j].Hidden ==> exists(i, 0, len(r), r[i] == c.commands[j]))
+//@   assigns nothing
+
+// sort (trusted): the result is a sorted rearrangement of the same elements.
+//@ assumed func sort.Sort.commandList(data commandList)
+//@   updates data
+//@   ensures forall(i, 0, len(data), exists(j, 0, len(data), data[i] == old(data)[j]))
+//@   ensures forall(j, 0, len(data), exists(i, 0, len(data), data[i] == old(data)[j]))
+//@   ensures forall(i, 0, len(data)-1, data[i].Name <= data[i+1].Name)
+//@ assumed func sort.Strings(a []string)
+//@   updates a
+//@   ensures forall(i, 0, len(a), exists(j, 0, len(a), a[i] == old(a)[j]))
+//@   ensures forall(j, 0, len(a), exists(i, 0, len(a), a[i] == old(a)[j]))
+//@   ensures forall(i, 0, len(a)-1, a[i] <= a[i+1])
+
+//@ func (c *Command) sortedVisibleCommands() (r []*Command)
+//@   props C08 C16 C20 C15 C04
+//@   requires c != nil
+//@   ensures[C16,C20] forall(i, 0, len(r), r[i] != nil && !r[i].Hidden)
+//@   ensures[C16,C20] forall(i, 0, len(r), exists(j, 0, len(c.commands), r[i] == c.commands[j]))
+//@   ensures[C16,C20] forall(j, 0, len(c.commands), !c.commands[j].Hidden ==> exists(i, 0, len(r), r[i] == c.commands[j]))
+//@   ensures[C15,C20] forall(i, 0, len(r)-1, r[i].Name <= r[i+1].Name)
+//@   assigns nothing
